@@ -27,11 +27,6 @@ pub fn tame(p: &mut Program, s: &mut Src, foreign: bool) {
         if let Op::Cloud(c) = op {
             c.nan_ok = false;
             for r in &mut c.proto {
-                if let RType::Scaled { scale, .. } = &mut r.ty {
-                    if scale.0 < 0.0 && matches!(r.name.as_str(), "colorRed" | "colorGreen" | "colorBlue" | "intensity") {
-                        *scale = F64(-scale.0); // real range of a colour/intensity type must be ascending
-                    }
-                }
                 // a foreign producer may store invalid-state values outside the documented set
                 if foreign && s.chance(1, 6) {
                     match r.name.as_str() {
